@@ -1,11 +1,14 @@
 package main
 
 import (
+	"verif/harness/internal/c17"
 	"verif/harness/internal/c19"
 	"verif/harness/internal/c20"
 )
 
 func init() {
+	checks["C17"] = c17.Run
+	workers["c17"] = c17.Worker
 	checks["C19"] = c19.Run
 	checks["C20"] = c20.Run
 }
